@@ -9,8 +9,23 @@ use std::sync::Arc;
 pub enum Base {
     /// tfhd carries base_data_offset, pointing at: the moof start (true) or the run's own data (false)
     Explicit { at_moof: bool },
+    /// tfhd carries base_data_offset AND sets the default-base-is-moof flag: the explicit offset wins
+    ExplicitWithMoofFlag { at_moof: bool },
     DefaultBaseIsMoof,
     Neither,
+}
+
+impl Base {
+    /// Some(at_moof) when the tfhd carries an explicit base data offset
+    pub fn explicit(&self) -> Option<bool> {
+        match self {
+            Base::Explicit { at_moof } | Base::ExplicitWithMoofFlag { at_moof } => Some(*at_moof),
+            _ => None,
+        }
+    }
+    pub fn moof_flag(&self) -> bool {
+        matches!(self, Base::DefaultBaseIsMoof | Base::ExplicitWithMoofFlag { .. })
+    }
 }
 
 #[derive(Clone, Debug)]
@@ -123,12 +138,9 @@ pub fn media_nodes(m: &LFragMovie) -> (Vec<Node>, Vec<(u32, Vec<FExpect>)>) {
             let (ml, dl) = (moof_label.clone(), label.clone());
             let th = Tfhd {
                 version: 0,
-                extra_flags: if base == Base::DefaultBaseIsMoof { 0x020000 } else { 0 },
+                extra_flags: if base.moof_flag() { 0x020000 } else { 0 },
                 track_id: r.track_id,
-                base_data_offset: match base {
-                    Base::Explicit { .. } => Some(0),
-                    _ => None,
-                },
+                base_data_offset: base.explicit().map(|_| 0),
                 sample_description_index: None,
                 default_sample_duration: r.frag_default_duration,
                 default_sample_size: None,
@@ -138,7 +150,7 @@ pub fn media_nodes(m: &LFragMovie) -> (Vec<Node>, Vec<(u32, Vec<FExpect>)>) {
                 b"tfhd",
                 Arc::new(move |a: &Anchors| {
                     let mut t = th.clone();
-                    if let Base::Explicit { at_moof } = base {
+                    if let Some(at_moof) = base.explicit() {
                         let moof = a.get(&ml).map(|x| x.0).unwrap_or(0);
                         let data = a.get(&dl).map(|x| x.1).unwrap_or(0) + run_rel;
                         t.base_data_offset = Some(if at_moof { moof } else { data });
@@ -165,8 +177,8 @@ pub fn media_nodes(m: &LFragMovie) -> (Vec<Node>, Vec<(u32, Vec<FExpect>)>) {
                     if t.data_offset.is_some() {
                         let moof = a.get(&ml).map(|x| x.0).unwrap_or(0) as i64;
                         let data = (a.get(&dl).map(|x| x.1).unwrap_or(0) + run_rel) as i64;
-                        let b = match base {
-                            Base::Explicit { at_moof: false } => data,
+                        let b = match base.explicit() {
+                            Some(false) => data,
                             _ => moof,
                         };
                         t.data_offset = Some((data - b) as i32);
